@@ -174,9 +174,42 @@ def sweep(tier, seed):
                 fails.append({'input': {'shape': list(shape), 'edges': edges, 'op': 'ds.mask(A).mask(B)'}, 'observed': probs[:3], 'expected': 'operands are never modified; masks accumulate'})
         if len(fails) >= 10:
             break
+    # 0-d (scalar) datasets and integer-valued datasets
+    from valjean.eponine.dataset import Dataset
+    specials = [('0-d', Dataset(np.float64(2.0), np.float64(0.1), name='a'), Dataset(np.float64(-4.0), np.float64(0.2), name='b')),
+                ('integers', Dataset(np.array([2, -4, 6]), np.array([1, 1, 2]), name='a'), Dataset(np.array([3, 5, -7]), np.array([1, 2, 1]), name='b'))]
+    for label, a, b in specials:
+        for sym, f in ops.items():
+            for other, kind in ((b, 'dataset'), (-3, 'number'), (2.5, 'number')):
+                n += 1
+                sa = (np.array(a.value).tobytes(), np.array(a.error).tobytes())
+                try:
+                    r = f(a, other)
+                except Exception as e:      # noqa
+                    fails.append({'input': {'datasets': label, 'op': f'dataset {sym} {kind}'}, 'observed': f'raised {e!r}', 'expected': 'a dataset'})
+                    continue
+                ov = other.value if kind == 'dataset' else other
+                av, ae = np.asarray(a.value, dtype=float), np.asarray(a.error, dtype=float)
+                want_v = f(av, np.asarray(ov, dtype=float))
+                if kind == 'dataset':
+                    oe = np.asarray(other.error, dtype=float)
+                    want_e = np.sqrt(ae ** 2 + oe ** 2) if sym in '+-' else np.abs(want_v) * np.sqrt((ae / av) ** 2 + (oe / np.asarray(ov, dtype=float)) ** 2)
+                else:
+                    want_e = ae if sym in '+-' else (ae * abs(other) if sym == '*' else ae / abs(other))
+                probs = []
+                if not _close(np.asarray(r.value, dtype=float), want_v):
+                    probs.append(f'{label}: a {sym} {kind}: value {np.asarray(r.value).tolist()} != {np.asarray(want_v).tolist()}')
+                if not _close(np.asarray(r.error, dtype=float), want_e):
+                    probs.append(f'{label}: a {sym} {kind}: error {np.asarray(r.error).tolist()} != {np.asarray(want_e).tolist()}')
+                if np.shape(r.value) != np.shape(r.error) or np.shape(r.value) != np.shape(a.value):
+                    probs.append(f'{label}: a {sym} {kind}: shapes {np.shape(r.value)} / {np.shape(r.error)}')
+                if (np.array(a.value).tobytes(), np.array(a.error).tobytes()) != sa:
+                    probs.append(f'{label}: a {sym} {kind}: the operand was modified')
+                if probs:
+                    fails.append({'input': {'datasets': label, 'op': f'dataset {sym} {kind}'}, 'observed': probs[:3], 'expected': 'C08 oracle'})
     return {'name': 'dataset-arithmetic-native', 'evaluations': n, 'distinct': n, 'failures': fails[:10], 'exhaustive': False,
             'bound': f'shapes {shapes}, bins as edges and centres, finite values of either sign; dataset o dataset, dataset o number in {consts}, dataset o array for + - * /; '
-                     'copy independence (writes into the copy incl. its bins), squeeze, one chain; exact operands (all errors zero) on either side x right operand with / without bins; a mask of a mask; relative tolerance 1e-12 on the error formulas',
+                     'copy independence (writes into the copy incl. its bins), squeeze, one chain; exact operands (all errors zero) on either side x right operand with / without bins; a mask of a mask; 0-d datasets and integer-valued datasets with datasets and numbers; relative tolerance 1e-12 on the error formulas',
             'samples': [{'shape': [2, 2], 'edges': True, 'op': 'dataset * -1'}]}
 
 
